@@ -172,7 +172,7 @@ pub fn c08_pass<const STEP: usize, const KIND: u8>(inp: &Inp) -> Verdict {
     n += 1;
     assert!(hist_matches(&ns, &wh, n), "C08: recorded start-of-turn hashes wrong after a pass");
     assert!(hooks::initial_hash_of_move(&ns).board_state_hash() == got, "C08: initial hash after a pass");
-    vcover!(s.trapped && s.hist_len == 3, "C08 witness: pass after a capture forgets three entries");
+    vcover!(s.trapped && s.hist_len == 4, "C08 witness: pass after a capture forgets the four entries");
     vcover!(!s.trapped && s.hist_len == 4, "C08 witness: pass keeps four entries");
     std::mem::forget(ns);
     std::mem::forget(gs);
